@@ -137,7 +137,7 @@ def run(chk, prog):
     chk.require(okm2, "CHM-LEFTBIAS", "Static.merge_with", "shared keys merged with c1's sub-map on the left, at the same key", derived=(why_ + " :: " if not okm2 else "") + show(t)[:300], expected="for key in keys(c1) | keys(c2): merge(c1.get_submap(key), c2.get_submap(key)) if in both, else the side that has it", where=W(s, "merge_with"))
     r = ev.eval_fn(s.methods["filter"], s.module, s)
     t = r.ret
-    keys = ("call", ("attr", ("attr", SELF, "mapping"), "keys"), (), ())
+    keys = ("attr", SELF, "mapping")
     a = mk_elem(keys)
     okf = is_call(t, "build") and is_t(t[2][0], "dictfam") and t[2][0][1] == keys and t[2][0][2] == a and is_mcall(t[2][0][3], "filter") and t[2][0][3][1][1] == ("call", ("attr", SELF, "get_submap"), (a,), ())
     sub = t[2][0][3][2][0] if okf else None
